@@ -302,8 +302,11 @@ class ExprModule:
             lines.append("    @icontract.{}(lambda x, y: {})".format(deco, txt))
             lines.append("    {}def f(x, y, z='zed'):".format(prefix))
             lines.append("        return 1")
-            lines.append("    return f, (lambda x, y: {}), (lambda x, y: {})".format(txt, render(tree, rec=True)))
-            lines.append("f{0}, n{0}, r{0} = make{0}(5)".format(n))
+            lines.append("    def set_c(v):")
+            lines.append("        nonlocal c")
+            lines.append("        c = v")
+            lines.append("    return f, (lambda x, y: {}), (lambda x, y: {}), set_c".format(txt, render(tree, rec=True)))
+            lines.append("f{0}, n{0}, r{0}, s{0} = make{0}(5)".format(n))
             lines.append("")
         src = "\n".join(lines) + "\n"
         self.source = src
@@ -385,6 +388,7 @@ def check_cases(res: CheckResult, prop_clauses: Dict[str, set], cases: List[dict
     for off in range(0, len(keys), CH):
         chunk = {k: by_expr[k] for k in keys[off:off + CH]}
         mod = ExprModule(chunk, ic, role)
+        uses_c = {k_: any(nd_["k"] == "name" and nd_["a"] == 3 for nd_ in e_) for k_, e_ in chunk.items()}
         try:
             for c in cases:
                 key = json.dumps(c["expr"])
@@ -414,6 +418,15 @@ def check_cases(res: CheckResult, prop_clauses: Dict[str, set], cases: List[dict
                                          "y={!r}: spec {} vs CPython {} evaluated {}".format(
                                              text, xv, yv, spec_py, cpy[:2], evaluated))
                 # 2. the implementation
+                if uses_c.get(key):
+                    # the closure variable had another value during an earlier (possibly violated) call: the message
+                    # of THIS violation must show the value it has now
+                    mod.ns["s" + n](99)
+                    try:
+                        mod.call(n, xv, yv)
+                    except Exception:  # noqa
+                        pass
+                    mod.ns["s" + n](C_VALUE[1])
                 mod.ident_calls = []
                 try:
                     out = mod.call(n, xv, yv)
